@@ -16,6 +16,10 @@ def stress(ctx, binary, rounds, tag):
         ctx.violation("concurrent mockers/callers crashed: " + o[-900:], {"family": "conc", "kind": "crash", "tail": o[-2500:]})
         return None
     lines = open(out).read().splitlines()
+    nf5 = sum(1 for l in lines if '"call-f5"' in l)
+    if nf5:
+        ctx.violation("a caller of the steadily mocked method got 3000+(3000+original): its callback's origin placeholder re-entered the mock (%d calls, %s)" % (nf5, tag),
+                      {"family": "conc", "kind": "reentered-mock", "calls": nf5, "run": tag})
     shutil.copy(out, os.path.join(ctx.specdir(), "trace.ndjson"))
     r = ctx.tlc("Trace_Conc", "Trace_Conc.cfg", workers=1, timeout=1500, expect_violation=True, tag="trace validation %s, %d events" % (tag, len(lines)), jvm="-Xss64m")
     ctx.cov["traces_validated_against_impl"] += rounds
